@@ -11,7 +11,7 @@ open Prog
 
 def Neut {α : Type} (P : α → Prop) : Prog α → Prop
   | .ret a => P a
-  | .panic _ => True
+  | .panic s => UpperMsg s
   | .load _ _ c => ∀ v, Neut P (c v)
   | .store .tree _ _ c => Neut P c
   | .store .slot _ _ c => Neut P c
@@ -26,8 +26,8 @@ def Neut {α : Type} (P : α → Prop) : Prog α → Prop
   | .cas .row _ _ _ _ => False
   | .cas .huge _ _ _ _ => False
   | .casPart _ _ _ _ _ _ => False
-  | .upd .tree _ _ c => ∀ r, Neut P (c r)
-  | .upd .slot _ _ c => ∀ r, Neut P (c r)
+  | .upd .tree _ f c => (∀ cur s, f cur = .panic s → UpperMsg s) ∧ ∀ r, Neut P (c r)
+  | .upd .slot _ f c => (∀ cur s, f cur = .panic s → UpperMsg s) ∧ ∀ r, Neut P (c r)
   | .upd .row _ _ _ => False
   | .upd .huge _ _ _ => False
 
@@ -42,36 +42,42 @@ theorem neut_bind_iff {α β : Type} {P : β → Prop} (p : Prog α) (f : α →
   | swap k i v c ih => cases k <;> first | exact forall_congr' fun o => ih o | exact Iff.rfl
   | cas k i e n c ih => cases k <;> first | exact forall_congr' fun o => ih o | exact Iff.rfl
   | casPart i sh w e n c ih => exact Iff.rfl
-  | upd k i g c ih => cases k <;> first | exact forall_congr' fun o => ih o | exact Iff.rfl
+  | upd k i g c ih => cases k <;> first | exact and_congr Iff.rfl (forall_congr' fun o => ih o) | exact Iff.rfl
 
 theorem Neut.mono {α : Type} {P Q : α → Prop} (h : ∀ a, P a → Q a) : ∀ p : Prog α, Neut P p → Neut Q p := by
   intro p
   induction p with
   | ret a => exact h a
-  | panic s => exact fun _ => trivial
+  | panic s => exact fun hp => hp
   | load k i c ih => exact fun hp v => ih v (hp v)
   | store k i v c ih => cases k <;> first | exact fun hp => ih hp | exact fun hp => hp
   | swap k i v c ih => cases k <;> first | exact fun hp o => ih o (hp o) | exact fun hp => hp
   | cas k i e n c ih => cases k <;> first | exact fun hp o => ih o (hp o) | exact fun hp => hp
   | casPart i sh w e n c ih => exact fun hp => hp
-  | upd k i g c ih => cases k <;> first | exact fun hp o => ih o (hp o) | exact fun hp => hp
+  | upd k i g c ih => cases k <;> first | exact fun hp => ⟨hp.1, fun o => ih o (hp.2 o)⟩ | exact fun hp => hp
 
 @[simp] theorem neut_pure {α : Type} {P : α → Prop} (a : α) : Neut P (pure a : Prog α) ↔ P a := Iff.rfl
 @[simp] theorem neut_ret {α : Type} {P : α → Prop} (a : α) : Neut P (Prog.ret a) ↔ P a := Iff.rfl
-@[simp] theorem neut_panic {α : Type} {P : α → Prop} (s : String) : Neut P (Prog.panic s : Prog α) ↔ True := Iff.rfl
+@[simp] theorem neut_panic {α : Type} {P : α → Prop} (s : String) : Neut P (Prog.panic s : Prog α) ↔ UpperMsg s := Iff.rfl
+@[simp] theorem upperMsg_iff (s : String) : UpperMsg s ↔ s ∉ lowerMsgs := Iff.rfl
+attribute [simp] lowerMsgs oobMsg
 @[simp] theorem neut_loadK {k : Kind} {P : k.Val → Prop} (i : Nat) : Neut P (loadK k i) ↔ ∀ v, P v := Iff.rfl
 @[simp] theorem neut_storeK_tree {P : Unit → Prop} (i : Nat) (v : Tree) : Neut P (storeK .tree i v) ↔ P () := Iff.rfl
 @[simp] theorem neut_storeK_slot {P : Unit → Prop} (i : Nat) (v : LTree) : Neut P (storeK .slot i v) ↔ P () := Iff.rfl
 @[simp] theorem neut_swapK_tree {P : Tree → Prop} (i : Nat) (v : Tree) : Neut P (swapK .tree i v) ↔ ∀ o, P o := Iff.rfl
 @[simp] theorem neut_swapK_slot {P : LTree → Prop} (i : Nat) (v : LTree) : Neut P (swapK .slot i v) ↔ ∀ o, P o := Iff.rfl
 @[simp] theorem neut_updK_tree {P : Except Tree Tree → Prop} (i : Nat) (f : Tree → Upd Tree) :
-    Neut P (updK .tree i f) ↔ ∀ r, P r := Iff.rfl
+    Neut P (updK .tree i f) ↔ (∀ cur s, f cur = .panic s → UpperMsg s) ∧ ∀ r, P r := Iff.rfl
 @[simp] theorem neut_updK_slot {P : Except LTree LTree → Prop} (i : Nat) (f : LTree → Upd LTree) :
-    Neut P (updK .slot i f) ↔ ∀ r, P r := Iff.rfl
+    Neut P (updK .slot i f) ↔ (∀ cur s, f cur = .panic s → UpperMsg s) ∧ ∀ r, P r := Iff.rfl
+theorem ofOption_ne_panic {β : Type} (o : Option β) (s : String) : Upd.ofOption o ≠ .panic s := by
+  cases o <;> (intro h; cases h)
 @[simp] theorem neut_tryUpdate_tree {P : Except Tree Tree → Prop} (i : Nat) (f : Tree → Option Tree) :
-    Neut P (tryUpdate .tree i f) ↔ ∀ r, P r := Iff.rfl
+    Neut P (tryUpdate .tree i f) ↔ ∀ r, P r :=
+  ⟨fun h => h.2, fun h => ⟨fun cur s hs => absurd hs (ofOption_ne_panic _ _), h⟩⟩
 @[simp] theorem neut_tryUpdate_slot {P : Except LTree LTree → Prop} (i : Nat) (f : LTree → Option LTree) :
-    Neut P (tryUpdate .slot i f) ↔ ∀ r, P r := Iff.rfl
+    Neut P (tryUpdate .slot i f) ↔ ∀ r, P r :=
+  ⟨fun h => h.2, fun h => ⟨fun cur s hs => absurd hs (ofOption_ne_panic _ _), h⟩⟩
 
 attribute [simp] neut_bind_iff
 
@@ -81,7 +87,7 @@ theorem Neut.safeL {α : Type} {g : Geom} {P : α → Prop} (gh : Gh) :
   intro p
   induction p with
   | ret a => exact fun hp => ⟨rfl, hp⟩
-  | panic s => exact fun _ => rfl
+  | panic s => exact fun hp => ⟨rfl, hp⟩
   | load k i c ih =>
     intro hp
     cases k with
@@ -119,26 +125,110 @@ theorem Neut.safeL {α : Type} {g : Geom} {P : α → Prop} (gh : Gh) :
     | tree =>
       intro cur
       cases hf : f cur with
-      | skip => exact ih _ (hp _)
-      | set v => exact ih _ (hp _)
-      | panic s => rfl
+      | skip => exact ih _ (hp.2 _)
+      | set v => exact ih _ (hp.2 _)
+      | panic s => exact ⟨rfl, hp.1 cur s hf⟩
     | slot =>
       intro cur
       cases hf : f cur with
-      | skip => exact ih _ (hp _)
-      | set v => exact ih _ (hp _)
-      | panic s => rfl
+      | skip => exact ih _ (hp.2 _)
+      | set v => exact ih _ (hp.2 _)
+      | panic s => exact ⟨rfl, hp.1 cur s hf⟩
 
 abbrev NeutT {α : Type} (p : Prog α) : Prop := Neut (fun _ => True) p
+
+/-! ### the closures of the tree and slot updates only trap with upper-level messages -/
+
+theorem Tree.with_panic (tf free : Nat) (r : Bool) (cls : Nat) (s : String) (h : Tree.with tf free r cls = .panic s) : UpperMsg s := by
+  unfold Tree.with at h
+  split at h
+  · cases h; simp
+  · split at h
+    · cases h; simp
+    · cases h
+
+theorem Tree.put_panic (tf : Nat) (self : Tree) (n : Nat) (pol : PolicyFn) (dflt : Nat) (s : String)
+    (h : Tree.put tf self n pol dflt = .panic s) : UpperMsg s := by
+  unfold Tree.put at h
+  simp only at h
+  split at h
+  · cases h; simp
+  · split at h
+    · split at h
+      · cases h; simp
+      · cases h
+    · cases h
+
+theorem Tree.unreserveAdd_panic (tf : Nat) (self : Tree) (n cls : Nat) (pol : PolicyFn) (dflt : Nat) (s : String)
+    (h : Tree.unreserveAdd tf self n cls pol dflt = .panic s) : UpperMsg s := by
+  unfold Tree.unreserveAdd at h
+  split at h
+  · split at h
+    · exact Tree.put_panic _ _ _ _ _ _ h
+    · split at h
+      · cases h; simp
+      · exact Tree.put_panic _ _ _ _ _ _ h
+    · cases h; simp
+    · cases h; simp
+  · cases h
+
+theorem Tree.ros_panic (tf : Nat) (self : Tree) (n : Nat) (pol : PolicyFn) (cls : Nat) (s : String)
+    (h : Tree.reserveOrSteal tf self n pol cls = .panic s) : UpperMsg s := by
+  unfold Tree.reserveOrSteal at h
+  split at h
+  · split at h
+    · split at h
+      · exact Tree.with_panic _ _ _ _ _ h
+      · cases h
+    · split at h
+      · exact Tree.with_panic _ _ _ _ _ h
+      · cases h
+    · cases h
+    · cases h
+  · cases h
+
+theorem LTree.with_panic (row free : Nat) (s : String) (h : LTree.with row free = .panic s) : UpperMsg s := by
+  unfold LTree.with at h
+  split at h
+  · cases h; simp
+  · split at h
+    · cases h; simp
+    · cases h
+
+theorem LTree.with_ne_skip (row free : Nat) : LTree.with row free ≠ .skip := by
+  unfold LTree.with
+  split
+  · intro h; cases h
+  · split <;> (intro h; cases h)
+
+theorem LTree.put_panic (tr tf : Nat) (self : LTree) (tree n : Nat) (s : String) (h : self.put tr tf tree n = .panic s) :
+    UpperMsg s := by
+  unfold LTree.put at h
+  split at h
+  · split at h
+    · cases h; simp
+    · cases h
+  · cases h
+
+theorem LTree.setStart_panic (tr : Nat) (self : LTree) (row : Nat) (s : String) (h : self.setStart tr row = .panic s) :
+    UpperMsg s := by
+  unfold LTree.setStart at h
+  split at h
+  · split at h
+    · cases h; simp
+    · cases h
+  · cases h
 
 /-! ### the helpers of the upper level are neutral -/
 section
 variable (c : Cfg)
 
 theorem tput_neut (i free : Nat) : NeutT (tput c i free) := by
-  simp [tput, Trees.put]
+  simp only [tput, Trees.put, neut_bind_iff, neut_updK_tree]
+  exact ⟨fun cur s h => Tree.put_panic _ _ _ _ _ _ h, fun r => by simp⟩
 theorem tunreserve_neut (i free cls : Nat) : NeutT (tunreserve c i free cls) := by
   simp only [tunreserve, Trees.unreserve, neut_bind_iff, neut_updK_tree]
+  refine ⟨fun cur s h => Tree.unreserveAdd_panic _ _ _ _ _ _ _ h, ?_⟩
   intro r; cases r <;> simp
 theorem trees_sync_neut (i min : Nat) : NeutT (Trees.sync i min) := by
   simp only [Trees.sync, neut_bind_iff, neut_tryUpdate_tree]
@@ -150,9 +240,37 @@ theorem trees_steal_neut (i cls free : Nat) : NeutT (Trees.steal c.policy i cls 
   | ok old => simp only []; split <;> simp
 theorem trees_reserveOrSteal_neut (i cls free : Nat) : NeutT (Trees.reserveOrSteal c.tf c.policy i cls free) := by
   simp only [Trees.reserveOrSteal, neut_bind_iff, neut_updK_tree]
+  refine ⟨fun cur s h => Tree.ros_panic _ _ _ _ _ _ h, ?_⟩
   intro r; cases r with
   | error e => simp
   | ok old => simp only []; split <;> simp
+theorem Tree.ros_set_le (tf : Nat) (self : Tree) (n : Nat) (pol : PolicyFn) (cls : Nat) (v : Tree)
+    (h : Tree.reserveOrSteal tf self n pol cls = .set v) : n ≤ self.free := by
+  unfold Tree.reserveOrSteal at h
+  split at h
+  · rename_i hc
+    simp only [Bool.and_eq_true, decide_eq_true_eq] at hc
+    exact hc.1
+  · cases h
+
+/-- the old counter `reserve_or_steal` reports covers what was asked for -/
+theorem trees_reserveOrSteal_neut' (i cls free : Nat) :
+    Neut (fun r => ∀ x, r = some x → free ≤ x.2.1) (Trees.reserveOrSteal c.tf c.policy i cls free) := by
+  simp only [Trees.reserveOrSteal, neut_bind_iff, neut_updK_tree]
+  refine ⟨fun cur s h => Tree.ros_panic _ _ _ _ _ _ h, ?_⟩
+  intro r; cases r with
+  | error e => simp
+  | ok old =>
+    simp only []
+    cases hr : Tree.reserveOrSteal c.tf old free c.policy cls with
+    | set n =>
+      simp only [neut_pure]
+      intro x hx
+      cases hx
+      exact Tree.ros_set_le _ _ _ _ _ _ hr
+    | skip => simp
+    | panic s => simp
+
 theorem classRange_neut (cls : Nat) : NeutT (Locals.classRange c cls) := by
   unfold Locals.classRange; split <;> simp
 theorem classLocals_neut (cls : Nat) : NeutT (Locals.classLocals c cls) := by
@@ -184,7 +302,8 @@ theorem locals_setStart_neut (cls index row : Nat) : NeutT (Locals.setStart c cl
     simp only [neut_bind_iff]
     apply Neut.mono _ _ (slotIdx_neut rng index)
     intro idx _
-    simp
+    simp only [neut_updK_slot]
+    exact ⟨fun cur s h => LTree.setStart_panic _ _ _ _ h, fun r => by simp⟩
 
 theorem locals_put_neut (cls loc tree free : Nat) : NeutT (Locals.put c cls loc tree free) := by
   simp only [Locals.put, neut_bind_iff]
@@ -197,6 +316,7 @@ theorem locals_put_neut (cls loc tree free : Nat) : NeutT (Locals.put c cls loc 
     apply Neut.mono _ _ (slotIdx_neut rng loc)
     intro idx _
     simp only [neut_updK_slot]
+    refine ⟨fun cur s h => LTree.put_panic _ _ _ _ _ _ h, ?_⟩
     intro r; cases r <;> simp
 
 theorem locals_swap_neut (cls loc tree free : Nat) : NeutT (Locals.swap c cls loc tree free) := by
@@ -209,7 +329,10 @@ theorem locals_swap_neut (cls loc tree free : Nat) : NeutT (Locals.swap c cls lo
     simp only [neut_bind_iff]
     apply Neut.mono _ _ (slotIdx_neut rng loc)
     intro idx _
-    split <;> simp
+    split
+    · simp
+    · rename_i s heq; exact LTree.with_panic _ _ _ heq
+    · rename_i heq; exact absurd heq (LTree.with_ne_skip _ _)
 
 theorem stealAny_slots_neut (tree : Option Nat) (free index tc : Nat) (rng : Nat × Nat) (cnt j : Nat) :
     NeutT (Locals.stealAny.slots c tree free index tc rng cnt j) := by
